@@ -5,7 +5,7 @@ CONSTANTS
   MaxHeaders = 3
   NTargets = 11
   NQueries = 6
-  NPool = 16
+  NPool = 21
   NBodies = 8
   NEndpoints = 8
   Kinds = {"echo", "text", "data", "stream", "error", "notfound", "redirect", "status", "nocontent", "uncaught", "invalidhdr", "media"}
